@@ -2190,6 +2190,9 @@ class Evaluator:
             else:
                 return Term('binop:' + type(op).__name__, (a, b))
         except Unknown as ex:
+            if 'division by zero' in str(ex) and getattr(self, 'zero_division_is_value', False):
+                # NumPy scalars: x / 0 is nan / inf with a warning, not an exception - a value, which matters only if something uses it
+                return term_as_num(Term('undefined', (Const('division by zero'),), uid=fresh_serial(), kind='scalar'), False)
             self.issue(st, node, f"cannot canonicalise: {ex}")
             return Term('binop:' + type(op).__name__, (a, b), uid=fresh_serial())
         out = Num(r, length, kind)
